@@ -199,6 +199,12 @@ pub fn profile(p: &Params) -> Profile {
             pr.w_flush = 8;
             pr.w_poll = 6;
         }
+        "C13" => {
+            // flavour "http": the same send / poll traffic alternately over the binary protocol and HTTP/JSON
+            pr.w_poll = 35;
+            pr.w_restart = 3;
+            pr.key_heavy = true;
+        }
         "C19" => {
             pr.encryption = Some(true);
             pr.w_restart = 6;
@@ -368,14 +374,22 @@ pub fn case_strategy(p: &Params) -> BoxedStrategy<PCase> {
         proptest::collection::vec(op_strategy(&pr), 1..=max_ops),
         if matches!(p.property.as_str(), "C14" | "C15" | "C16") { prop_oneof![3 => Just(0u8), 2 => 1u8..=8].boxed() } else { Just(0u8).boxed() },
     )
-        .prop_map(|(cfg, partitions, expiry, max_size, ops, sibling_segs)| PCase {
-            cfg,
-            partitions,
-            expiry,
-            max_size,
-            ops,
-            chaos: vec![],
-            sibling_segs,
+        .prop_map({
+            let http = p.flavour == "http";
+            move |(cfg, partitions, expiry, max_size, mut ops, sibling_segs)| {
+                if http {
+                    // the HTTP listener refuses request bodies above its configured `max_request_size` (2 MB):
+                    // a documented limit, so sends of this flavour stay far below it
+                    for op in ops.iter_mut() {
+                        if let POp::Send { msgs, .. } = op {
+                            for m in msgs.iter_mut() {
+                                m.len = m.len.min(20_000);
+                            }
+                        }
+                    }
+                }
+                PCase { cfg, partitions, expiry, max_size, ops, chaos: vec![], sibling_segs }
+            }
         })
         .boxed()
 }
